@@ -125,16 +125,30 @@ func (p *ClusterProp) Run(seed uint64, tier string, tr *core.Trace) (out *RunOut
 	out.Stats = e.Stats
 	or := p.MakeOracle(e, tr)
 
+	knownSeen := map[string]bool{}
 	record := func(idx int, st *core.Step, stepErr error) bool {
 		vs := or.AfterStep(e, idx, st, stepErr)
 		for i := range vs {
 			vs[i].Step = idx
 		}
-		out.Violations = append(out.Violations, vs...)
+		stop := false
+		for _, v := range vs {
+			if IsKnownOpen(v) {
+				// a listed finding: recorded once per run, the run goes on
+				k := v.Oracle + "/" + v.Sig
+				if !knownSeen[k] {
+					knownSeen[k] = true
+					out.Violations = append(out.Violations, v)
+				}
+				continue
+			}
+			out.Violations = append(out.Violations, v)
+			stop = true
+		}
 		if stepErr != nil && len(vs) == 0 {
 			out.Foreign = append(out.Foreign, "step error: "+stepErr.Error())
 		}
-		return len(out.Violations) > 0 || stepErr != nil
+		return stop || stepErr != nil
 	}
 	exec := func(idx int, st *core.Step) (stop bool) {
 		var stepErr error
